@@ -202,3 +202,54 @@ func VH_C12_block(k int, cmds int, withAgg int, tsMode int) {
 	}
 	vcover("block")
 }
+
+// C12(d): the hash names exactly one block. Two blocks that differ in exactly one part (field:
+// 0 view, 1 proposer, 2 parent, 3 timestamp, 4 the QC's view, 5 a command's sequence number,
+// 6 a command's client) - the other value symbolic and different - have different bytes under
+// the hash; with a collision-free hash they have different hashes, so a block fetched by hash is
+// the block that hash names. Full 64/32-bit ranges.
+func VH_C12_binding(field int) {
+	mk := func(view hotstuff.View, prop hotstuff.ID, parent hotstuff.Hash, ts int64, qcv hotstuff.View, seq uint64, client uint32) *hotstuff.Block {
+		batch := &clientpb.Batch{Commands: []*clientpb.Command{{ClientID: client, SequenceNumber: seq, Data: []byte{7}}}}
+		qc := hotstuff.NewQuorumCert(vhMulti(1, false), qcv, parent)
+		b := hotstuff.NewBlock(parent, qc, batch, view, prop)
+		b.SetTimestamp(time.Unix(ts, 0))
+		return b
+	}
+	view, view2 := hotstuff.View(nondetU64("view")), hotstuff.View(nondetU64("view"))
+	prop, prop2 := hotstuff.ID(nondetU32("proposer")), hotstuff.ID(nondetU32("proposer"))
+	ts, ts2 := nondetI64("ts-sec"), nondetI64("ts-sec")
+	vassume(ts >= 0 && ts < 1<<33 && ts2 >= 0 && ts2 < 1<<33)
+	qcv, qcv2 := hotstuff.View(nondetU64("qc-view")), hotstuff.View(nondetU64("qc-view"))
+	seq, seq2 := nondetU64("seq"), nondetU64("seq")
+	cl, cl2 := nondetU32("client"), nondetU32("client")
+	parent, parent2 := vhHash("parent"), vhHash("parent")
+	switch field {
+	case 0:
+		vassume(view != view2)
+		prop2, ts2, qcv2, seq2, cl2, parent2 = prop, ts, qcv, seq, cl, parent
+	case 1:
+		vassume(prop != prop2)
+		view2, ts2, qcv2, seq2, cl2, parent2 = view, ts, qcv, seq, cl, parent
+	case 2:
+		vassume(parent != parent2)
+		view2, prop2, ts2, qcv2, seq2, cl2 = view, prop, ts, qcv, seq, cl
+	case 3:
+		vassume(ts != ts2)
+		view2, prop2, qcv2, seq2, cl2, parent2 = view, prop, qcv, seq, cl, parent
+	case 4:
+		vassume(qcv != qcv2)
+		view2, prop2, ts2, seq2, cl2, parent2 = view, prop, ts, seq, cl, parent
+	case 5:
+		vassume(seq != seq2)
+		view2, prop2, ts2, qcv2, cl2, parent2 = view, prop, ts, qcv, cl, parent
+	default:
+		vassume(cl != cl2)
+		view2, prop2, ts2, qcv2, seq2, parent2 = view, prop, ts, qcv, seq, parent
+	}
+	a := mk(view, prop, parent, ts, qcv, seq, cl)
+	b := mk(view2, prop2, parent2, ts2, qcv2, seq2, cl2)
+	vassert(!bytes.Equal(a.ToBytes(), b.ToBytes()), "blocks-differing-in-one-part-have-different-bytes-under-the-hash")
+	vcover("binding")
+	vobserve("field", uint64(field))
+}
